@@ -93,6 +93,13 @@ def main():
     def annot(gpu):
         df = ta.get_gpu_user_annotation_breakdown(use_gpu_annotation=gpu, visualize=False, num_kernels=3)
         return None if df is None else df.sort_values(list(df.columns[:2])).to_dict("records")
+    def kernels_with_annotations():
+        res = {}
+        for r in ranks:
+            df = ta.get_gpu_kernels_with_user_annotations(r, expand_names=True, shortern_names=False)
+            res[r] = None if df is None else sorted([int(a), str(b)] for a, b in zip(df["index"], df["s_user_annotation"]))
+        return res
+    tryit("kernels_with_annotations", kernels_with_annotations)
     tryit("gpu_annotation_breakdown", lambda: annot(True))
     tryit("cpu_annotation_breakdown", lambda: annot(False))
     # ranks added to ONE Trace object step by step: ids assigned in an earlier step must not move, every rank must still decode
